@@ -50,14 +50,14 @@ fn all_starts(s: &Starts) -> Vec<StartState> {
 fn control_flow(ctx: &Ctx, homes: &(dyn Fn(Kind) -> bool + Sync), rich_entries: Vec<&'static str>) -> i32 {
     let sampler = Sampler::new(4, ctx.seed);
     let mut st = TreeStats::default();
-    let starts = build_starts(ctx, &mut st);
+    let starts = build_starts(ctx, homes, &mut st);
     let all = all_starts(&starts);
     let (core_hi, small_hi, rich_hi, reach_hi, reach_depth) = ctx.tier.pick((6, 4, 3, 3, 1), (7, 5, 4, 4, 2));
     st = st.merge(drive(ctx, &Core::new(1, core_hi), &[starts.genesis.clone()], false, homes, &sampler));
     st = st.merge(drive(ctx, &Core::new(1, small_hi), &starts.fixed, false, homes, &sampler));
     st = st.merge(drive(ctx, &Rich::new(1, rich_hi, rich_entries), &all[..ctx.tier.pick(2, all.len())], false, homes, &sampler));
     // histories: every state reachable by <= depth small transactions x all small programs
-    let reach = reachable_starts(ctx, &starts.genesis, reach_depth, &mut st);
+    let reach = reachable_starts(ctx, &starts.genesis, reach_depth, homes, &mut st);
     st = st.merge(drive(ctx, &Core::new(1, reach_hi), &reach, false, homes, &sampler));
     let nstarts = all.len() + reach.len();
     finish(
@@ -90,7 +90,7 @@ pub fn run_c04(ctx: &Ctx) -> i32 {
     let homes = |k: Kind| matches!(k, Kind::RespEvents | Kind::RespData | Kind::ReplyContent | Kind::Panic);
     let sampler = Sampler::new(4, ctx.seed);
     let mut st = TreeStats::default();
-    let starts = build_starts(ctx, &mut st);
+    let starts = build_starts(ctx, &homes, &mut st);
     let all = all_starts(&starts);
     let g = [starts.genesis.clone()];
     let kinds = vec!["execute", "instantiate", "migrate", "wasm-sudo", "execute-helper"];
@@ -136,7 +136,7 @@ pub fn run_c05(ctx: &Ctx) -> i32 {
     let homes = |k: Kind| matches!(k, Kind::EntryCtx | Kind::EntryPresence | Kind::Panic);
     let sampler = Sampler::new(4, ctx.seed);
     let mut st = TreeStats::default();
-    let starts = build_starts(ctx, &mut st);
+    let starts = build_starts(ctx, &homes, &mut st);
     let blocks = with_world(false, |w| block_starts(w, &starts.genesis));
     let (funds_hi, core_hi, rich_hi) = ctx.tier.pick((4, 5, 3), (5, 6, 4));
     st = st.merge(drive(ctx, &Funds::new(1, funds_hi), &[starts.genesis.clone()], false, &homes, &sampler));
@@ -246,7 +246,7 @@ pub fn run_c10(ctx: &Ctx) -> i32 {
     let homes = |k: Kind| matches!(k, Kind::EntryQuery | Kind::EntryStore | Kind::Panic);
     let sampler = Sampler::new(4, ctx.seed);
     let mut st = TreeStats::default();
-    let starts = build_starts(ctx, &mut st);
+    let starts = build_starts(ctx, &homes, &mut st);
     let all = all_starts(&starts);
     let (core_hi, ext_hi, rich_hi, reach_depth) = ctx.tier.pick((6, 5, 3, 1), (7, 6, 4, 2));
     // (a) inside trees: basic bundle on the large family, extended bundle (every query kind) on smaller ones
@@ -255,7 +255,7 @@ pub fn run_c10(ctx: &Ctx) -> i32 {
     st = st.merge(drive(ctx, &Rich::new(1, rich_hi, vec!["execute", "instantiate"]), &all[..ctx.tier.pick(2, all.len())], true, &homes, &sampler));
     st = st.merge(drive(ctx, &Funds::new(1, ctx.tier.pick(3, 4)), &[starts.genesis.clone()], true, &homes, &sampler));
     // (b) through App: in every reachable state, every query kind twice
-    let reach = reachable_starts(ctx, &starts.genesis, reach_depth, &mut st);
+    let reach = reachable_starts(ctx, &starts.genesis, reach_depth, &homes, &mut st);
     let mut qstates: Vec<StartState> = all.clone();
     qstates.extend(reach.iter().cloned());
     let nq: u64 = qstates
@@ -296,7 +296,7 @@ fn c13_node(pos: usize, s: &str, idx: usize) -> Node {
 }
 
 /// Builds the program placing node X (the one with the tested string) as `kind` in `context`.
-fn c13_program(ad: &Addrs, kind: &str, context: usize, pos: usize, s: &str) -> Option<Program> {
+fn c13_program(ad: &Addrs, kind: &str, context: usize, pos: usize, s: &str) -> Option<(Program, usize)> {
     let plain = |idx: usize| {
         let mut n = Node::default();
         standard_node(idx, &mut n);
@@ -319,7 +319,7 @@ fn c13_program(ad: &Addrs, kind: &str, context: usize, pos: usize, s: &str) -> O
                     "instantiate" => entry_of("instantiate", ad),
                     _ => entry_of("migrate", ad),
                 };
-                return Some(Program { entry, root: 0, nodes: vec![c13_node(pos, s, 0)] });
+                return Some((Program { entry, root: 0, nodes: vec![c13_node(pos, s, 0)] }, 0));
             }
             let deep = context > 4;
             let mode = modes[(context - 1) % 4];
@@ -346,14 +346,14 @@ fn c13_program(ad: &Addrs, kind: &str, context: usize, pos: usize, s: &str) -> O
             nodes[cur].subs.push(Sub { id: 101, payload: b"p".to_vec(), reply_on: mode, msg: x_msg(xi), reply });
             // a later sibling shows whether the parent continued
             nodes[cur].subs.push(Sub { id: 102, payload: vec![], reply_on: Mode::Never, msg: Msg::BankSend { to: Target::Addr(ad.poor.clone()), coins: vec![("y".into(), 1)] }, reply: None });
-            Some(Program { entry: Entry::Execute { sender: ad.rich.clone(), contract: ad.a.clone(), funds: vec![] }, root: 0, nodes })
+            Some((Program { entry: Entry::Execute { sender: ad.rich.clone(), contract: ad.a.clone(), funds: vec![] }, root: 0, nodes }, xi))
         }
         "sudo" => {
             if context > 1 {
                 return None;
             }
             let entry = if context == 0 { Entry::WasmSudo { contract: ad.a.clone() } } else { Entry::SudoWasm { contract: ad.b.clone() } };
-            Some(Program { entry, root: 0, nodes: vec![c13_node(pos, s, 0)] })
+            Some((Program { entry, root: 0, nodes: vec![c13_node(pos, s, 0)] }, 0))
         }
         "reply" => {
             // X is the reply handler: contexts 0..4 depth 1, 4..8 depth 2; within: (child ok, Success), (child ok, Always), (child fails, Error), (child fails, Always)
@@ -379,17 +379,75 @@ fn c13_program(ad: &Addrs, kind: &str, context: usize, pos: usize, s: &str) -> O
             nodes.push(c13_node(pos, s, xi));
             nodes[cur].subs.push(Sub { id: 101, payload: b"p".to_vec(), reply_on: mode, msg: Msg::Call { target: Target::Other, funds: vec![("x".into(), 1)], node: ci }, reply: Some(xi) });
             nodes[cur].subs.push(Sub { id: 102, payload: vec![], reply_on: Mode::Never, msg: Msg::BankSend { to: Target::Addr(ad.poor.clone()), coins: vec![("y".into(), 1)] }, reply: None });
-            Some(Program { entry: Entry::Execute { sender: ad.rich.clone(), contract: ad.a.clone(), funds: vec![] }, root: 0, nodes })
+            Some((Program { entry: Entry::Execute { sender: ad.rich.clone(), contract: ad.a.clone(), funds: vec![] }, root: 0, nodes }, xi))
         }
         _ => None,
     }
 }
 
+/// Differential verdict for one C13 case: the real run must agree with the model that decides
+/// the validity of node X's response correctly; if it agrees instead with the model that decides
+/// it the wrong way round, the predicate is violated; if it agrees with neither, the divergence
+/// belongs to another property (except changed strings in emitted events, checked directly).
+#[allow(clippy::too_many_arguments)]
+fn c13_one(ctx: &Ctx, world: &mut World, fam: &str, start: &StartState, p: &Program, xi: usize, pos: &str, st: &mut TreeStats) {
+    let prog = std::rc::Rc::new(p.clone());
+    let real = world.run_real(start, &prog);
+    let good = world.run_model_flip(start, &prog, None);
+    st.programs += 1;
+    st.invocations += real.trace.len() as u64;
+    if real.result.is_ok() { st.ok += 1 } else { st.err += 1 }
+    if good.trace.iter().any(|r| r.reply.is_some()) { st.with_reply += 1 }
+    if good.trace.iter().any(|r| r.reply.as_ref().map_or(false, |x| !x.ok)) { st.with_caught_failure += 1 }
+    st.final_states.insert(hash64(&real.final_storage.data, 11));
+    let case = |extra: Value| json!({"engine": "tree", "family": fam, "start": start.name, "tested_node": xi, "program": program_json(p), "divergence": extra});
+    if let Some(pn) = &real.panicked {
+        ctx.violation("c13:Panic", case(json!({"panic": pn})));
+        return;
+    }
+    let d1 = super::cmp::compare(world, &start.mstate, p, &real, &good);
+    if d1.is_empty() {
+        return;
+    }
+    let bad = world.run_model_flip(start, &prog, Some(xi));
+    let d2 = super::cmp::compare(world, &start.mstate, p, &real, &bad);
+    let x = &p.nodes[xi];
+    let x_invalid = super::model::invalid_response(x);
+    if d2.is_empty() {
+        *st.home.entry("validity-decided-wrongly".into()).or_default() += 1;
+        ctx.violation(
+            &format!("c13:{}-response-{}:{}", if x_invalid { "malformed" } else { "well-formed" }, if x_invalid { "accepted" } else { "rejected" }, pos),
+            case(json!({"expected": if x_invalid { "call fails like any contract error" } else { "accepted" }, "first_divergence_from_correct_model": format!("{:?}", d1[0].kind), "detail": d1[0].detail})),
+        );
+        return;
+    }
+    // neither model matches: if X's strings should surface in the top-level response, they must be there unchanged
+    if !x_invalid {
+        if let (Ok((rev, _)), Ok(m)) = (&real.result, &good.result) {
+            let (ety, eattrs) = &x.events[1];
+            let want_ty = format!("wasm-{}", ety);
+            let model_has = m.events.iter().any(|e| e.ty == want_ty);
+            let real_has = rev.iter().any(|e| e.ty == want_ty && eattrs.iter().all(|a| e.attrs.contains(a)));
+            let (ak, av) = &x.attrs[1];
+            let model_has_attr = m.events.iter().any(|e| e.ty == "wasm" && e.attrs.contains(&(ak.clone(), av.clone())));
+            let real_has_attr = rev.iter().any(|e| e.ty == "wasm" && e.attrs.contains(&(ak.clone(), av.clone())));
+            if (model_has && !real_has) || (model_has_attr && !real_has_attr) {
+                *st.home.entry("emitted-strings-changed".into()).or_default() += 1;
+                ctx.violation(&format!("c13:emitted-strings-changed:{}", pos), case(json!({"real_events": rev, "model_events": m.events})));
+                return;
+            }
+        }
+    }
+    for d in d1 {
+        *st.foreign.entry(format!("{:?}", d.kind)).or_default() += 1;
+    }
+}
+
 pub fn run_c13(ctx: &Ctx) -> i32 {
-    let homes = |k: Kind| matches!(k, Kind::Outcome | Kind::State | Kind::RespEvents | Kind::ReplyContent | Kind::ReplyPresence | Kind::EntryPresence | Kind::Panic);
+    let homes = |k: Kind| matches!(k, Kind::Panic);
     let sampler = Sampler::new(4, ctx.seed);
     let mut st = TreeStats::default();
-    let starts = build_starts(ctx, &mut st);
+    let starts = build_starts(ctx, &homes, &mut st);
     let all = all_starts(&starts);
     let use_starts: Vec<StartState> = all[..ctx.tier.pick(2, all.len())].to_vec();
     let mut cases: Vec<(String, usize, usize, usize)> = vec![];
@@ -419,11 +477,11 @@ pub fn run_c13(ctx: &Ctx) -> i32 {
             with_world(false, |world| {
                 let ad = Addrs::of(world);
                 for (kind, context, pos, si) in ch {
-                    let Some(p) = c13_program(&ad, kind, *context, *pos, C13_STRINGS[*si]) else { continue };
+                    let Some((p, xi)) = c13_program(&ad, kind, *context, *pos, C13_STRINGS[*si]) else { continue };
                     for s in &use_starts {
                         let fam = format!("c13:{}:ctx{}:{}", kind, context, C13_POS[*pos]);
                         sampler.offer(hash64(&(kind, context, pos, si), 3), || json!({"entry_point": kind, "context": context, "position": C13_POS[*pos], "string": C13_STRINGS[*si], "program": program_json(&p)}));
-                        run_one(ctx, world, &fam, s, p.clone(), &homes, &mut lst, &format!(":{}", C13_POS[*pos]));
+                        c13_one(ctx, world, &fam, s, &p, xi, C13_POS[*pos], &mut lst);
                     }
                 }
             });
@@ -490,10 +548,12 @@ fn combine(sender: &str, parts: &[(Option<(String, Coins, Program)>, Option<Msg>
 }
 
 pub fn run_c01(ctx: &Ctx) -> i32 {
-    let homes = |k: Kind| matches!(k, Kind::StateOnErr | Kind::State | Kind::Outcome | Kind::HelperReturn | Kind::MultiResponses | Kind::Panic);
+    let homes = |k: Kind| matches!(k, Kind::StateOnErr | Kind::StateMissing | Kind::HelperReturn | Kind::MultiResponses | Kind::Panic);
+    // execute_multi: order of execution and visibility of predecessors are part of C01
+    let multi_homes = |k: Kind| homes(k) || matches!(k, Kind::EntryPresence | Kind::EntryStore | Kind::EntryQuery);
     let sampler = Sampler::new(4, ctx.seed);
     let mut st = TreeStats::default();
-    let starts = build_starts(ctx, &mut st);
+    let starts = build_starts(ctx, &homes, &mut st);
     let all = all_starts(&starts);
     let g = [starts.genesis.clone()];
     let (core_hi, entries_hi, rich_hi, reach_hi, reach_depth, multi_sz) = ctx.tier.pick((6, 4, 3, 3, 1, 2), (7, 6, 4, 4, 2, 3));
@@ -504,7 +564,7 @@ pub fn run_c01(ctx: &Ctx) -> i32 {
     st = st.merge(drive(ctx, &Rich::new(1, rich_hi, vec!["execute", "wasm-sudo", "instantiate"]), &all[..ctx.tier.pick(2, all.len())], false, &homes, &sampler));
     st = st.merge(drive(ctx, &Core::new(1, ctx.tier.pick(4, 5)), &starts.fixed, false, &homes, &sampler));
     // (b) histories
-    let reach = reachable_starts(ctx, &starts.genesis, reach_depth, &mut st);
+    let reach = reachable_starts(ctx, &starts.genesis, reach_depth, &homes, &mut st);
     st = st.merge(drive(ctx, &Core::with_entries(1, reach_hi, vec!["execute", "wasm-sudo"]), &reach, false, &homes, &sampler));
     // (c) execute_multi: 1..=3 messages, each a call (all core programs up to multi_sz) to A or B, or a bank leaf
     let multi_stats = with_world(false, |world| {
@@ -559,7 +619,7 @@ pub fn run_c01(ctx: &Ctx) -> i32 {
                     let parts: Vec<_> = sq.iter().map(|i| multi_stats[*i].clone()).collect();
                     let p = combine(&rich, &parts);
                     sampler.offer(hash64(sq, 31), || json!({"family": "execute_multi", "program": program_json(&p)}));
-                    run_one(ctx, world, "execute_multi", &starts.genesis, p, &homes, &mut lst, ":multi");
+                    run_one(ctx, world, "execute_multi", &starts.genesis, p, &multi_homes, &mut lst, ":multi");
                 }
             });
             lst
@@ -602,14 +662,14 @@ pub fn replay(ctx: &Ctx, case: &Value) {
     let prog: Program = serde_json::from_value(case["program"].clone()).unwrap_or_else(|e| machinery_error(&format!("bad program in replay: {}", e)));
     let start_name = case["start"].as_str().unwrap_or("genesis").to_string();
     let mut st = TreeStats::default();
-    let starts = build_starts(ctx, &mut st);
+    let starts = build_starts(ctx, &|_| true, &mut st);
     let mut all = all_starts(&starts);
     all.extend(with_world(false, |w| block_starts(w, &starts.genesis)));
     let start = match all.iter().find(|s| s.name == start_name) {
         Some(s) => s.clone(),
         None => {
             // a reachable state: its name spells the path genesis+t<i>+t<j>
-            let reach = reachable_starts(ctx, &starts.genesis, 2, &mut st);
+            let reach = reachable_starts(ctx, &starts.genesis, 2, &|_| true, &mut st);
             reach.into_iter().find(|s| s.name == start_name).unwrap_or_else(|| {
                 println!("replay: unknown start state {}; replaying from genesis", start_name);
                 starts.genesis.clone()
